@@ -567,6 +567,37 @@ def clone_value_cases():
                     for x in mutable_objects(c._data.get(k)):
                         if id(x) in mine:
                             return "%r: field %s of the clone holds the original's %s object" % (t, k, type(x).__name__)
+    # connected lines of every record type, and of an extension record with two reference fields kept under one collection of the
+    # segment: the clone holds identifiers, never a line of the Gfa (neither directly nor inside an oriented reference or a list)
+    from collections import OrderedDict
+    if "J" not in gfapy.Line.EXTENSIONS:
+        class Join(gfapy.Line):
+            RECORD_TYPE = "J"
+            POSFIELDS = OrderedDict([("jid", "identifier_gfa2"), ("sid1", "identifier_gfa2"), ("sid2", "identifier_gfa2")])
+            NAME_FIELD = "jid"
+        Join.register_extension(references=[("sid1", gfapy.line.segment.GFA2, "joins"), ("sid2", gfapy.line.segment.GFA2, "joins")])
+    docs = {"gfa1": ["S\ta\t*", "S\tb\t*", "L\ta\t+\tb\t-\t2M", "C\ta\t+\tb\t+\t1\t3M", "P\tp\ta+,b-\t2M"],
+            "gfa2": ["S\ta\t4\t*", "S\tb\t4\t*", "E\te\ta+\tb-\t2\t4$\t2\t4$\t2M", "G\tg\ta+\tb-\t10\t*", "F\ta\tx+\t0\t4$\t0\t4\t*",
+                     "O\to\ta+ e+ b-", "U\tu\ta b e o", "J\tj\ta\tb"]}
+    def lines_in(v, depth=0):
+        if isinstance(v, gfapy.Line):
+            return [v]
+        if isinstance(v, gfapy.OrientedLine):
+            return lines_in(v.line, depth + 1)
+        if isinstance(v, (list, tuple)) and depth < 4:
+            return [y for x in v for y in lines_in(x, depth + 1)]
+        return []
+    for version, ds in docs.items():
+        g = gfapy.Gfa(ds, version=version)
+        for l in g.lines:
+            if not l.is_connected():
+                return "%s: not connected in the base document" % l
+            c = l.clone()
+            if c.is_connected() or str(c) != str(l):
+                return "clone of connected %s: connected %s, text %r" % (l, c.is_connected(), str(c))
+            for k, v in c._data.items():
+                if lines_in(v):
+                    return "clone of connected %r: field %s holds a line of the Gfa (%r)" % (str(l), k, type(v).__name__)
     return True
 
 
